@@ -78,6 +78,7 @@ func (fr *Frame) clone() *Frame {
 
 // Exec verifies one function.
 type Exec struct {
+	logID       int
 	prog        *Program
 	fn          *ssa.Function
 	c           *Contract
@@ -107,6 +108,7 @@ type Exec struct {
 	stores      map[string]storeInfo
 	freshRefs   map[string]bool
 	boundOf     map[string]int
+	lowerOf     map[string]int // reference term -> allocation point it is known to be at or after (assumed fresh)
 	alts        map[string][]Term
 	nerr        int
 	inlineStack []*ssa.Function
